@@ -531,6 +531,57 @@ package main
   (callsite "sasl.NewServerFromListener" 0 (requires callback-asks-the-store (= $1 fnSaslListenerCb)))
   (callsite "(*sasl.Server).Run" 0 (requires the-server-just-built (= $0 (callresult "sasl.NewServerFromListener" 0 0)))))
 
+; The HTTP and LDAP frontends are wired like the saslauthd one: every API path is served by the handler proved for it, all of them
+; with the listener's store and with ONE session factory (tokens are instance-bound: C06/C07), the dispatching method hands the
+; request to exactly that handler with exactly those two objects, and the LDAP servers are given the bind handler built here
+; (the two http.Server literals are outside the engine's struct model: runHTTP(s)Listener stay without contract).
+(fnconst fnWebBasicAuth "main.handleWebBasicAuth")
+(fnconst fnWebAuthenticate "main.handleWebAuthenticate")
+(fnconst fnWebAdd "main.handleWebAdd")
+(fnconst fnWebRemove "main.handleWebRemove")
+(fnconst fnWebUpdate "main.handleWebUpdate")
+(fnconst fnWebSetAdmin "main.handleWebSetAdmin")
+(fnconst fnWebList "main.handleWebList")
+(fnconst fnWebListFull "main.handleWebListFull")
+(func "main.newWebHandler"
+  (props C04 C06)
+  (noframe)
+  (callsite "(*net/http.ServeMux).Handle"
+    (requires on-the-returned-mux (= $0 (callresult "net/http.NewServeMux" 0 0)))
+    (requires api-paths-get-the-proved-handlers (=> (or (= $1 "/basic-auth") (str.prefixof "/api/" $1))
+      (and (= (. (boxed $2) store) store)
+           (= (. (boxed $2) sessions) (callresult "main.NewWebSessionFactory" 0 0))
+           (= (. (boxed $2) H)
+              (ite (= $1 "/basic-auth") fnWebBasicAuth (ite (= $1 "/api/authenticate") fnWebAuthenticate
+              (ite (= $1 "/api/add") fnWebAdd (ite (= $1 "/api/remove") fnWebRemove
+              (ite (= $1 "/api/update") fnWebUpdate (ite (= $1 "/api/set-admin") fnWebSetAdmin
+              (ite (= $1 "/api/list") fnWebList (ite (= $1 "/api/list-full") fnWebListFull 0)))))))))))))
+  (ensures mux-or-error (=> (= $r1 nil) (and (not (= $r0 nil)) (= $r0 (callresult "net/http.NewServeMux" 0 0)))))
+  (ensures no-sessions-no-handler (=> (not (= (callresult "main.NewWebSessionFactory" 0 1) nil)) (not (= $r1 nil)))))
+
+(func "(main.webHandler).ServeHTTP"
+  (props C04 C06)
+  (noframe)
+  (callsite "func(*main.Store, *main.webSessionFactory, net/http.ResponseWriter, *net/http.Request)" 0
+    (requires hands-over-its-own-store-sessions-and-request (and (= $0 (. h store)) (= $1 (. h sessions)) (= $2 w) (= $3 r)))))
+
+(func "main.runLDAPListener"
+  (props C04)
+  (noframe)
+  (requires has-config (not (= config nil)))
+  (callsite "(*ldap.Server).BindFunc" 0
+    (requires binds-go-to-this-store (and (= $0 (callresult "ldap.NewServer" 0 0)) (= (. (boxed $2) store) store))))
+  (callsite "(*ldap.Server).Serve" 0
+    (requires the-server-configured-here (= $0 (callresult "ldap.NewServer" 0 0)))))
+(func "main.runLDAPsListener"
+  (props C04)
+  (noframe)
+  (requires has-config-with-tls-section (and (not (= config nil)) (not (= (. config TLS) nil))))
+  (callsite "(*ldap.Server).BindFunc" 0
+    (requires binds-go-to-this-store (and (= $0 (callresult "ldap.NewServer" 0 0)) (= (. (boxed $2) store) store))))
+  (callsite "(*ldap.Server).Serve" 0
+    (requires the-server-configured-here (= $0 (callresult "ldap.NewServer" 0 0)))))
+
 (func "(main.ldapHandler).Bind"
   (props C04 C15)
   (callsite "(*main.Store).Authenticate" 0
